@@ -141,3 +141,82 @@ def main_dropped_row():
         sys.exit(1)
     print("not reproduced")
     sys.exit(0)
+
+
+def _user_cost(net):
+    """the user's cost functions evaluated at the elements' own result powers"""
+    total = 0.
+    for _, c in net.poly_cost.iterrows():
+        if c.et != "dcline" and not bool(net[c.et].at[c.element, "in_service"]):
+            continue
+        p = own_power(net, c.et, c.element)
+        total += poly(c.cp2_eur_per_mw2, c.cp1_eur_per_mw, c.cp0_eur, p)
+        q = own_power(net, c.et, c.element, q=True)
+        if (c.cq2_eur_per_mvar2 or c.cq1_eur_per_mvar or c.cq0_eur) and not np.isnan(q):     # DC OPF: no reactive power, no q cost
+            total += poly(c.cq2_eur_per_mvar2, c.cq1_eur_per_mvar, c.cq0_eur, q)
+    for _, c in net.pwl_cost.iterrows():
+        if c.et != "dcline" and not bool(net[c.et].at[c.element, "in_service"]):
+            continue
+        total += pwl([tuple(a) for a in c.points], own_power(net, c.et, c.element, q=(c.power_type == "q")))
+    return total
+
+
+def _ring(gen_labels=(0, 1)):
+    net = pp.create_empty_network()
+    bs = [pp.create_bus(net, 110., min_vm_pu=0.9, max_vm_pu=1.1) for _ in range(3)]
+    for a, b in ((0, 1), (1, 2), (0, 2)):
+        pp.create_line_from_parameters(net, bs[a], bs[b], 10., 0.1, 0.3, 10., 1.0, max_loading_percent=100.)
+    pp.create_ext_grid(net, bs[0], min_p_mw=-1000, max_p_mw=1000, min_q_mvar=-1000, max_q_mvar=1000)
+    pp.create_load(net, bs[1], p_mw=60., q_mvar=5., controllable=False)
+    for lab, b in zip(gen_labels, (1, 2)):
+        pp.create_gen(net, bs[b], p_mw=10., vm_pu=1., controllable=True, min_p_mw=0., max_p_mw=50., min_q_mvar=-20, max_q_mvar=20, index=lab)
+    return net
+
+
+def main_more(only=None):
+    """cost entries of elements without an OPF variable (out of service), constant / reactive terms of linear costs next to pwl costs,
+    dcline costs with gen labels other than 0..n-1"""
+    fails = []
+
+    def run(tag, net, tol=1e-3):
+        if only and only not in tag:
+            return
+        for runner in (pp.rundcopp, pp.runopp):
+            try:
+                runner(net)
+            except Exception as e:
+                print(f"skipped {tag}/{runner.__name__}: {type(e).__name__}: {e}")
+                continue
+            user = _user_cost(net)
+            if abs(net.res_cost - user) > tol * max(1., abs(user)):
+                fails.append(f"{tag}, {runner.__name__}: res_cost = {net.res_cost:.4f}, the user's cost functions at the result powers give {user:.4f}")
+    # (1) an out-of-service gen with a cost entry, listed before the gen in service
+    net = _ring()
+    net.gen.at[0, "in_service"] = False
+    pp.create_poly_cost(net, 0, "ext_grid", cp1_eur_per_mw=50.)
+    pp.create_poly_cost(net, 1, "gen", cp1_eur_per_mw=100.); pp.create_poly_cost(net, 0, "gen", cp1_eur_per_mw=1.)
+    run("cost entry of an out-of-service gen (1 EUR/MW) next to a gen in service (100 EUR/MW)", net)
+    # (2) linear polynomial costs with constant and reactive terms next to a pwl cost
+    net = _ring()
+    pp.create_poly_cost(net, 0, "gen", cp1_eur_per_mw=30., cp0_eur=1000., cq1_eur_per_mvar=40., cq0_eur=7.)
+    pp.create_poly_cost(net, 1, "gen", cp1_eur_per_mw=35.)
+    pp.create_pwl_cost(net, 0, "ext_grid", [[-1000., 1000., 40.]])
+    run("linear costs with cp0 / cq1 / cq0 next to a pwl cost", net)
+    # (3) a lone constant reactive cost
+    net = _ring()
+    pp.create_poly_cost(net, 0, "gen", cp1_eur_per_mw=30., cq0_eur=7.); pp.create_poly_cost(net, 1, "gen", cp1_eur_per_mw=35.)
+    pp.create_poly_cost(net, 0, "ext_grid", cp1_eur_per_mw=40.)
+    run("polynomial costs whose only reactive term is cq0", net)
+    # (4) dcline cost, gen labels (3, 1)
+    for labels in ((0, 1), (3, 1)):
+        net = _ring(labels)
+        pp.create_dcline(net, 0, 2, p_mw=5., loss_percent=0., loss_mw=0., vm_from_pu=1.0, vm_to_pu=1.0, max_p_mw=30., min_q_from_mvar=-5,
+                         max_q_from_mvar=5, min_q_to_mvar=-5, max_q_to_mvar=5)
+        pp.create_poly_cost(net, labels[0], "gen", cp1_eur_per_mw=30.); pp.create_poly_cost(net, labels[1], "gen", cp1_eur_per_mw=35.)
+        pp.create_poly_cost(net, 0, "ext_grid", cp1_eur_per_mw=40.); pp.create_poly_cost(net, 0, "dcline", cp1_eur_per_mw=-15.)
+        run(f"dcline cost with gen labels {labels}", net)
+    for f in fails:
+        print("REPRODUCED:", f)
+    if not fails:
+        print("not reproduced: res_cost equals the user's cost functions on all further replay cases")
+    sys.exit(1 if fails else 0)
